@@ -158,11 +158,22 @@ MembersOK(D) ==
     \cup
     { Fail("Membership", "duplicate", D.elements[j].symbol, [members |-> D.elements[j].members]) :
         j \in { k \in 1..Len(D.elements) : Cardinality({ D.elements[k].members[m] : m \in 1..Len(D.elements[k].members) }) # Len(D.elements[k].members) } }
+(* Element.append "assigns and sorts the nuclide to the element": members are listed by increasing (A, state) *)
+MembersSorted(D) ==
+    { Fail("Membership", "order", D.elements[j].symbol, [members |-> D.elements[j].members]) :
+        j \in { k \in 1..Len(D.elements) : LET mm == D.elements[k].members IN
+                  \E q \in 1..(Len(mm) - 1) : /\ mm[q] \in 1..N(D) /\ mm[q + 1] \in 1..N(D)
+                                              /\ \/ D.rows[mm[q]].a > D.rows[mm[q + 1]].a
+                                                 \/ D.rows[mm[q]].a = D.rows[mm[q + 1]].a /\ D.rows[mm[q]].s > D.rows[mm[q + 1]].s } }
 Abundance(D) ==
     { Fail("Abundance", "sum", D.elements[j].symbol, [ppb |-> AbundSum(D, D.elements[j])]) :
         j \in { k \in 1..Len(D.elements) : LET t == AbundSum(D, D.elements[k]) IN t # 0 /\ (t - Unit > AbundTol \/ Unit - t > AbundTol) } }
     \cup
     { Fail("Abundance", "range", D.rows[i].name, [ppb |-> D.rows[i].abund]) : i \in { k \in 1..N(D) : D.rows[k].abund < 0 \/ D.rows[k].abund > Unit } }
+    \cup  \* the elemental (natural) nuclide exists exactly for the elements that have natural isotopes (__addNaturalNuclideBases)
+    { Fail("Abundance", "elemental", D.elements[j].symbol, [natural |-> D.elements[j].natural]) :
+        j \in { k \in 1..Len(D.elements) : LET e == D.elements[k] IN
+                  (Len(e.natural) > 0) # (\E m \in 1..Len(e.members) : e.members[m] \in 1..N(D) /\ D.rows[e.members[m]].kind = "natural") } }
     \cup  \* getNaturalIsotopics returns exactly the members with a positive abundance and a mass number
     { Fail("Abundance", "naturalIsotopics", D.elements[j].symbol, [natural |-> D.elements[j].natural]) :
         j \in { k \in 1..Len(D.elements) : LET e == D.elements[k] IN
@@ -171,7 +182,8 @@ Abundance(D) ==
 
 (* ---- burn chain ------------------------------------------------------------------------------------------------------------
    chainFile : the entries the burn-chain file names   [parent, cat, type, products, branch]
-   chainLive : the Transmutation / DecayMode objects on the nuclides after imposeBurnChain, same record *)
+   chainLive : the Transmutation / DecayMode objects on the nuclides after imposeBurnChain, same record
+   chainStatus : "ok" if imposeBurnChain returned, else the exception it raised (a parent the directory does not have) *)
 TransTypes == {"n2n", "fission", "nGamma", "nalph", "np", "nd", "nt"}
 DecayTypes == {"bmd", "bpd", "ad", "ec", "sf"}
 ChainEntryFailures(D, tag, e) ==
@@ -183,7 +195,8 @@ ChainEntryFailures(D, tag, e) ==
     \cup (IF (e.cat = "transmutation" /\ e.type \in TransTypes) \/ (e.cat = "decay" /\ e.type \in DecayTypes) THEN {}
           ELSE { Fail("BurnChain", tag \o ":type", e.parent, [cat |-> e.cat, type |-> e.type]) })
 BurnChain(D) ==
-    UNION { ChainEntryFailures(D, "file", D.chainFile[j]) : j \in 1..Len(D.chainFile) }
+    (IF D.chainStatus = "ok" THEN {} ELSE { Fail("BurnChain", "impose", "chain", D.chainStatus) })   \* imposeBurnChain returned
+    \cup UNION { ChainEntryFailures(D, "file", D.chainFile[j]) : j \in 1..Len(D.chainFile) }
     \cup UNION { ChainEntryFailures(D, "live", D.chainLive[j]) : j \in 1..Len(D.chainLive) }
     \cup  \* what hangs on the nuclides is what the file names (as multisets: the order of parents differs)
     (IF \A e \in ToSet(D.chainFile) \cup ToSet(D.chainLive) :
